@@ -55,6 +55,12 @@ func scanUnpushed(cb GitScannerFoundPointer, remote string) error {
 		"--branches", "--tags", // include all locally referenced commits
 		"--not"} // but exclude everything that comes after
 
+	// Commits made on a detached HEAD are on no branch, but they are
+	// unpushed all the same.
+	if _, err := git.ResolveRef("HEAD"); err == nil {
+		logArgs = append([]string{"HEAD"}, logArgs...)
+	}
+
 	if len(remote) == 0 {
 		logArgs = append(logArgs, "--remotes")
 	} else {
